@@ -513,3 +513,26 @@ def status_never_forgotten(ctx, P, pre):
                    "the status of a service on an interface that is still in use is reset to %s: unregister and shutdown send their goodbye "
                    "only where the status is Announced, so the records announced there are never withdrawn" % "/".join(sorted(str(v) for v in low)))
     ctx.floor(pre + ".status-never-forgotten", n, 5, "ServiceInfo::set_status call sites")
+
+
+# ------------------------------------------------------------------------------------------------
+def followup_needs_open_browse(ctx, P, pre):
+    """the follow-up questions for an unresolved instance (Command::Resolve reruns, up to three, 500 ms apart) belong to
+    the browse that listed the instance.  Either every stop path purges them, or the handler re-checks that an open
+    browse (service_queriers) still lists the instance before it asks: otherwise the daemon keeps querying after
+    SearchStopped"""
+    from .f9 import purge_info
+    f = P.one("Zeroconf::exec_command_resolve")
+    q = calls_to(f, "Zeroconf::query_unresolved")
+    ctx.require(len(q) == 1, pre + ".anchor", f.name + "|query_unresolved", f.loc(), "%d call(s)" % len(q))
+    if len(q) != 1:
+        return
+    open_edges = guard_edges(P, f, lambda atom, outcome, bb: expr_or_closure_mentions_field(P, atom, "service_queriers", "Zeroconf"))
+    guarded_ = bool(open_edges) and must_pass_edges(f, q[0][0], open_edges)
+    stop = P.one("Zeroconf::exec_command_stop_browse")
+    purged = any("Resolve" in vs for (_b, vs) in purge_info(P, stop)["removes"])
+    ctx.ob(pre + ".followup-needs-open-browse", f.name, guarded_ or purged, f.loc(q[0][0]),
+           ("the follow-up question is asked only after a test on service_queriers (an open browse still lists the instance)" if guarded_ else
+            "stop_browse purges the Resolve reruns") if (guarded_ or purged) else
+           "a Resolve rerun queued before stop_browse still sends its question after SearchStopped: neither is it purged on stop nor does "
+           "exec_command_resolve look at service_queriers before asking")
